@@ -96,7 +96,9 @@ def check(ctx):
                 ctx.fail(R3, "%s:%s" % (b.file, b.line), "recursion without a known termination argument: %s" % scc, [k, "recursion"])
                 continue
             rec_calls = b.calls_to(k)
-            pl = b.locals_named(ent["set_param"])
+            # the visited set: the `&mut` collection parameter that is tested and passed down (named `%s` today; found by role)
+            pl = [i for i in range(1, b.arg_count + 1) if b.local_ty(i).startswith("&mut ") and any(t in b.local_ty(i) for t in ("Vec<", "HashSet<", "BTreeSet<"))
+                  and any(arg_origins(c, 0).has_leaf("param:%d" % i) for c in b.calls_to(*ent["test"]))]
             if not pl or not rec_calls:
                 ctx.fail(R3, "%s:%s" % (b.file, b.line), "visited-set parameter `%s` of %s not found" % (ent["set_param"], k), [k, "visited-param"])
                 continue
@@ -117,6 +119,16 @@ def check(ctx):
             ok2, hit = unreachable_without(b, [c.bb for c in rec_calls], removed_nodes=[c.bb for c in inserts])
             ctx.require(R3, bool(inserts) and ok2, rec_calls[0].where(),
                         "%s: the current element is recorded in `%s` before recursing" % (k.rsplit("::", 1)[1], ent["set_param"]), [k, "visited-insert"])
+            # the element stays recorded while its descendants are expanded: once an element is taken out of the set (pop/remove/
+            # clear/truncate) no further recursive call is reachable without a new insertion — an ancestor stack popped inside
+            # the member loop forgets the group for its later members, and a cycle through them recurses without bound
+            removers = [c for c in b.calls if c.bb in b.live_blocks() and (c.name or "").rsplit("::", 1)[-1] in ("pop", "remove", "clear", "truncate", "retain", "drain", "swap_remove", "take", "split_off")
+                        and c.args and arg_origins(c, 0).has_leaf("param:%d" % pl[0])]
+            for rmv in removers:
+                after = b.reachable_after(rmv.bb, removed_nodes=[c.bb for c in inserts])
+                bad = [c for c in rec_calls if c.bb in after]
+                ctx.require(R3, not bad, rmv.where(), "%s: after `%s` on `%s` no recursive call follows without a new insertion" % (k.rsplit("::", 1)[1], rmv.name.rsplit("::", 1)[-1], ent["set_param"]),
+                            [k, "visited-removed-early"])
             # the membership test is about the element being expanded (derives from the name/path parameter)
             for c in tests:
                 a = c.args[1] if len(c.args) > 1 else None
